@@ -32,7 +32,7 @@ def cases(rng, tier):
         else:
             cfg = CG.obj_config(rng, 800 if tier == "quick" else 2500)
         f, t, z, nsub, al = cfg
-        data = CG.rand_data(rng, f)
+        data = CG.structured_data(rng, f, t, z) if i % 5 == 4 else CG.rand_data(rng, f)
         thr = rng.choice([0, 1, 251, 100000])
         steps = CG.object_history(rng, f, t, z, extra_choices=(-1, 0, 0, 1, 2, 10, 11, 12))
         c = CG.codec_case(rng, cfg, thr, steps, [rng.choice([0, 0, 1]) for _ in steps], data)
